@@ -116,22 +116,28 @@ func (s *Stream) logDroppedDataWithThrottling() {
 
 // callSinksAsync asynchronously calls all sink functions
 func (s *Stream) callSinksAsync(results []map[string]any) {
-	// Safely access sinks slice using read lock
+	// Snapshot the sink lists under the read lock and release it before any sink
+	// runs: a synchronous sink (or the inline fallback of submitSinkTask) that
+	// calls back into the stream (AddSink/AddSyncSink take the write lock) would
+	// otherwise wait forever for a lock its own goroutine holds.
 	s.sinksMux.RLock()
-	defer s.sinksMux.RUnlock()
-
 	if len(s.sinks) == 0 && len(s.syncSinks) == 0 {
+		s.sinksMux.RUnlock()
 		return
 	}
+	sinks := make([]func([]map[string]any), len(s.sinks))
+	copy(sinks, s.sinks)
+	syncSinks := make([]func([]map[string]any), len(s.syncSinks))
+	copy(syncSinks, s.syncSinks)
+	s.sinksMux.RUnlock()
 
-	// Directly iterate sinks slice to avoid copy overhead
-	// Since submitSinkTask is async, won't hold lock for long time
-	for _, sink := range s.sinks {
+	// Since submitSinkTask is async, it returns quickly
+	for _, sink := range sinks {
 		s.submitSinkTask(sink, results)
 	}
 
 	// Execute synchronous sinks (blocking, sequential)
-	for _, sink := range s.syncSinks {
+	for _, sink := range syncSinks {
 		// Recover panic for each sync sink to prevent crashing the stream
 		func() {
 			defer func() {
